@@ -1,12 +1,12 @@
 /-
   C07 (text steps) — names written by a format action are read back by the longest-match parse action.
   `parseLongest_formatted`: for name tables `t1`, `t2` (the second optional), a non-empty name `a` at position `K`
-  of one of them, `parseLongest (a ++ tail) t1 t2 = some (K, tail)` provided
-    * `nameOK t1 t2 K a`  (decidable): no other position holds a name of `a`'s length equal to `a` up to ASCII case,
-    * `tailSafe (dangerChars t1 t2 a) tail` (decidable): the following text does not start with a character by
+  of one of them, `parseLongest low (a ++ tail) t1 t2 = some (K, tail)` provided
+    * `nameOK low t1 t2 K a`  (decidable): no other position holds a name of `a`'s length equal to `a` up to ASCII case,
+    * `tailSafe low (dangerChars low t1 t2 a) tail` (decidable): the following text does not start with a character by
       which some candidate strictly extends `a`.
   Instances: month names (genitive and plain tables searched together), day names, am/pm designators, era names.
-  Case folding is ASCII (`asciiLower`): the stated domain of the model.
+  Case folding is ASCII (`low`): the stated domain of the model.
 -/
 import PyodaModel.Text.WellFormed
 import PyodaProofs.TextLemmas
@@ -14,12 +14,14 @@ import PyodaProofs.TextLemmas
 namespace Pyoda.C07
 open Pyoda Pyoda.Text
 
+variable {low : Char → Char}
+
 /-! ## case-insensitive matching -/
 
 /-- `cursor._match_case_insensitive(c, _)` succeeds -/
-def mCI (c l : Text) : Bool := (matchCI c l).isSome
+def mCI (low : Char → Char) (c l : Text) : Bool := (matchCI low c l).isSome
 
-theorem matchCI_drop (c l r : Text) (h : matchCI c l = some r) : r = l.drop c.length := by
+theorem matchCI_drop (c l r : Text) (h : matchCI low c l = some r) : r = l.drop c.length := by
   unfold matchCI at h
   split at h
   · cases h
@@ -27,30 +29,30 @@ theorem matchCI_drop (c l r : Text) (h : matchCI c l = some r) : r = l.drop c.le
     · injection h with h; exact h.symm
     · cases h
 
-theorem mCI_nil (l : Text) : mCI [] l = true := by simp [mCI, matchCI]
+theorem mCI_nil (l : Text) : mCI low [] l = true := by simp [mCI, matchCI]
 
-theorem mCI_cons_nil (x : Char) (cs : Text) : mCI (x :: cs) [] = false := by simp [mCI, matchCI]
+theorem mCI_cons_nil (x : Char) (cs : Text) : mCI low (x :: cs) [] = false := by simp [mCI, matchCI]
 
 theorem mCI_cons_cons (x y : Char) (cs l : Text) :
-    mCI (x :: cs) (y :: l) = (decide (asciiLower y = asciiLower x) && mCI cs l) := by
+    mCI low (x :: cs) (y :: l) = (decide (low y = low x) && mCI low cs l) := by
   simp only [mCI, matchCI, List.length_cons, List.take_succ_cons, List.map_cons, List.cons.injEq]
   by_cases h1 : cs.length > l.length
   · have : cs.length + 1 > l.length + 1 := by omega
     simp [h1, this]
   · have : ¬ (cs.length + 1 > l.length + 1) := by omega
     simp only [h1, this, if_false]
-    by_cases h2 : asciiLower y = asciiLower x
+    by_cases h2 : low y = low x
     · simp only [h2, true_and, decide_true, Bool.true_and]
       split <;> rfl
     · simp [h2]
 
 theorem ciEq_cons (x y : Char) (xs ys : Text) :
-    ciEq (x :: xs) (y :: ys) = (decide (asciiLower x = asciiLower y) && ciEq xs ys) := by
+    ciEq low (x :: xs) (y :: ys) = (decide (low x = low y) && ciEq low xs ys) := by
   simp only [ciEq, List.map_cons, List.cons.injEq]
-  by_cases h : asciiLower x = asciiLower y <;> simp [h]
+  by_cases h : low x = low y <;> simp [h]
 
 /-- a candidate no longer than `a`: it matches `a ++ tail` iff it equals the corresponding prefix of `a` up to case -/
-theorem mCI_short : ∀ (c a tail : Text), c.length ≤ a.length → mCI c (a ++ tail) = ciEq (a.take c.length) c := by
+theorem mCI_short : ∀ (c a tail : Text), c.length ≤ a.length → mCI low c (a ++ tail) = ciEq low (a.take c.length) c := by
   intro c
   induction c with
   | nil => intro a tail _; simp [mCI_nil, ciEq]
@@ -64,8 +66,8 @@ theorem mCI_short : ∀ (c a tail : Text), c.length ≤ a.length → mCI c (a ++
 
 /-- a candidate longer than `a` that matches `a ++ tail`: it strictly extends `a`, and the tail starts (up to case)
     with the candidate's next character -/
-theorem mCI_long : ∀ (c a tail : Text), a.length < c.length → mCI c (a ++ tail) = true →
-    strictExt c a = true ∧ ∃ x tl, tail = x :: tl ∧ asciiLower x = asciiLower (c.getD a.length ' ') := by
+theorem mCI_long : ∀ (c a tail : Text), a.length < c.length → mCI low c (a ++ tail) = true →
+    strictExt low c a = true ∧ ∃ x tl, tail = x :: tl ∧ low x = low (c.getD a.length ' ') := by
   intro c
   induction c with
   | nil => intro a tail h _; simp at h
@@ -90,28 +92,28 @@ theorem mCI_long : ∀ (c a tail : Text), a.length < c.length → mCI c (a ++ ta
       rw [List.take_succ_cons, ciEq_cons, h1.2]
       simp [hm.1.symm]
 
-theorem ciEq_symm (x y : Text) : ciEq x y = ciEq y x := by
+theorem ciEq_symm (x y : Text) : ciEq low x y = ciEq low y x := by
   simp only [ciEq]
-  by_cases h : x.map asciiLower = y.map asciiLower
+  by_cases h : x.map low = y.map low
   · simp [h]
-  · have : ¬ (y.map asciiLower = x.map asciiLower) := fun e => h e.symm
+  · have : ¬ (y.map low = x.map low) := fun e => h e.symm
     simp [h, this]
 
-theorem ciEq_refl (x : Text) : ciEq x x = true := by simp [ciEq]
+theorem ciEq_refl (x : Text) : ciEq low x x = true := by simp [ciEq]
 
 /-- a candidate of `a`'s length matches `a ++ tail` iff it equals `a` up to case -/
-theorem mCI_same (c a tail : Text) (h : c.length = a.length) : mCI c (a ++ tail) = ciEq c a := by
+theorem mCI_same (c a tail : Text) (h : c.length = a.length) : mCI low c (a ++ tail) = ciEq low c a := by
   rw [mCI_short c a tail (by omega), h, List.take_length, ciEq_symm]
 
 /-! ## the longest-match loop -/
 
 theorem findLongest_inv (l : Text) (n : Nat) (K : Int) : ∀ (t : List Text) (i : Nat) (best : Int) (longest : Nat),
-    (∀ c ∈ t, mCI c l = true → c.length ≤ n) →
-    (∀ (p : Nat) (c : Text), t[p]? = some c → c.length = n → mCI c l = true → ((i + p : Nat) : Int) = K) →
+    (∀ c ∈ t, mCI low c l = true → c.length ≤ n) →
+    (∀ (p : Nat) (c : Text), t[p]? = some c → c.length = n → mCI low c l = true → ((i + p : Nat) : Int) = K) →
     longest ≤ n → (longest = n → best = K) →
-    longest ≤ (findLongest l t i best longest).2 ∧ (findLongest l t i best longest).2 ≤ n ∧
-    ((findLongest l t i best longest).2 = n → (findLongest l t i best longest).1 = K) ∧
-    ((∃ (p : Nat) (c : Text), t[p]? = some c ∧ c.length = n ∧ mCI c l = true) → (findLongest l t i best longest).2 = n) := by
+    longest ≤ (findLongest low l t i best longest).2 ∧ (findLongest low l t i best longest).2 ≤ n ∧
+    ((findLongest low l t i best longest).2 = n → (findLongest low l t i best longest).1 = K) ∧
+    ((∃ (p : Nat) (c : Text), t[p]? = some c ∧ c.length = n ∧ mCI low c l = true) → (findLongest low l t i best longest).2 = n) := by
   intro t
   induction t with
   | nil =>
@@ -121,8 +123,8 @@ theorem findLongest_inv (l : Text) (n : Nat) (K : Int) : ∀ (t : List Text) (i 
     rintro ⟨p, c, hp, _⟩; simp at hp
   | cons cand cs ih =>
     intro i best longest p1 p2 h1 h2
-    have p1' : ∀ c ∈ cs, mCI c l = true → c.length ≤ n := fun c hc => p1 c (List.mem_cons_of_mem _ hc)
-    have p2' : ∀ (p : Nat) (c : Text), cs[p]? = some c → c.length = n → mCI c l = true → ((i + 1 + p : Nat) : Int) = K := by
+    have p1' : ∀ c ∈ cs, mCI low c l = true → c.length ≤ n := fun c hc => p1 c (List.mem_cons_of_mem _ hc)
+    have p2' : ∀ (p : Nat) (c : Text), cs[p]? = some c → c.length = n → mCI low c l = true → ((i + 1 + p : Nat) : Int) = K := by
       intro p c hp hl hm
       have := p2 (p + 1) c (by simpa using hp) hl hm
       rw [← this]; congr 1; omega
@@ -141,7 +143,7 @@ theorem findLongest_inv (l : Text) (n : Nat) (K : Int) : ∀ (t : List Text) (i 
         omega
       | succ p => exact a4 ⟨p, c, by simpa using hp, hl, hm⟩
     · rw [if_neg hlen]
-      by_cases hm : (matchCI cand l).isSome = true
+      by_cases hm : (matchCI low cand l).isSome = true
       · rw [if_pos hm]
         have hc : cand.length ≤ n := p1 cand (List.mem_cons_self ..) hm
         have hk : cand.length = n → ((i : Nat) : Int) = K := by
@@ -170,8 +172,8 @@ theorem findLongest_inv (l : Text) (n : Nat) (K : Int) : ∀ (t : List Text) (i 
 
 /-! ## from the decidable conditions to the hypotheses of the loop -/
 
-theorem clashAt_false (a : Text) (K : Nat) : ∀ (t : List Text) (i : Nat), clashAt a K t i = false →
-    ∀ (p : Nat) (c : Text), t[p]? = some c → c.length = a.length → ciEq c a = true → i + p = K := by
+theorem clashAt_false (a : Text) (K : Nat) : ∀ (t : List Text) (i : Nat), clashAt low a K t i = false →
+    ∀ (p : Nat) (c : Text), t[p]? = some c → c.length = a.length → ciEq low c a = true → i + p = K := by
   intro t
   induction t with
   | nil => intro i _ p c hp; simp at hp
@@ -190,8 +192,8 @@ theorem clashAt_false (a : Text) (K : Nat) : ∀ (t : List Text) (i : Nat), clas
       have := ih (i + 1) h.2 p c (by simpa using hp) hl he
       omega
 
-theorem dangerOf_mem (a : Text) : ∀ (t : List Text) (c : Text), c ∈ t → strictExt c a = true →
-    asciiLower (c.getD a.length ' ') ∈ dangerOf a t := by
+theorem dangerOf_mem (a : Text) : ∀ (t : List Text) (c : Text), c ∈ t → strictExt low c a = true →
+    low (c.getD a.length ' ') ∈ dangerOf low a t := by
   intro t
   induction t with
   | nil => intro c hc; simp at hc
@@ -205,8 +207,8 @@ theorem dangerOf_mem (a : Text) : ∀ (t : List Text) (c : Text), c ∈ t → st
       · exact ih c hc he
 
 /-- no candidate longer than `a` matches `a ++ tail` when the tail is safe -/
-theorem no_longer_match (a tail : Text) (t : List Text) (hs : tailSafe (dangerOf a t) tail = true) :
-    ∀ c ∈ t, mCI c (a ++ tail) = true → c.length ≤ a.length := by
+theorem no_longer_match (a tail : Text) (t : List Text) (hs : tailSafe low (dangerOf low a t) tail = true) :
+    ∀ c ∈ t, mCI low c (a ++ tail) = true → c.length ≤ a.length := by
   intro c hc hm
   by_cases hl : c.length ≤ a.length
   · exact hl
@@ -217,8 +219,8 @@ theorem no_longer_match (a tail : Text) (t : List Text) (hs : tailSafe (dangerOf
     rw [hx] at hs
     exact absurd hmem hs
 
-theorem tailSafe_append (d1 d2 : List Char) (tail : Text) (h : tailSafe (d1 ++ d2) tail = true) :
-    tailSafe d1 tail = true ∧ tailSafe d2 tail = true := by
+theorem tailSafe_append (d1 d2 : List Char) (tail : Text) (h : tailSafe low (d1 ++ d2) tail = true) :
+    tailSafe low d1 tail = true ∧ tailSafe low d2 tail = true := by
   cases tail with
   | nil => exact ⟨rfl, rfl⟩
   | cons x tl =>
@@ -229,18 +231,18 @@ theorem tailSafe_append (d1 d2 : List Char) (tail : Text) (h : tailSafe (d1 ++ d
     table, no other position repeating it up to case, the following text not continuing it into a longer candidate -/
 theorem parseLongest_formatted (t1 : List Text) (t2 : Option (List Text)) (K : Nat) (a tail : Text)
     (hmem : t1[K]? = some a ∨ ∃ t, t2 = some t ∧ t[K]? = some a)
-    (hok : nameOK t1 t2 K a = true) (hs : tailSafe (dangerChars t1 t2 a) tail = true) :
-    parseLongest (a ++ tail) t1 t2 = some ((K : Int), tail) := by
+    (hok : nameOK low t1 t2 K a = true) (hs : tailSafe low (dangerChars low t1 t2 a) tail = true) :
+    parseLongest low (a ++ tail) t1 t2 = some ((K : Int), tail) := by
   simp only [nameOK, Bool.and_eq_true, decide_eq_true_eq, Bool.not_eq_true'] at hok
   obtain ⟨⟨hne, hc1⟩, hc2⟩ := hok
   obtain ⟨hs1, hs2⟩ := tailSafe_append _ _ tail hs
   have hpos : 0 < a.length := by cases a with | nil => exact absurd rfl hne | cons _ _ => simp
-  have hma : mCI a (a ++ tail) = true := by rw [mCI_same a a tail rfl, ciEq_refl]
+  have hma : mCI low a (a ++ tail) = true := by rw [mCI_same a a tail rfl, ciEq_refl]
   -- hypotheses of the loop for a table
-  have P1 : ∀ t, tailSafe (dangerOf a t) tail = true → ∀ c ∈ t, mCI c (a ++ tail) = true → c.length ≤ a.length :=
+  have P1 : ∀ t, tailSafe low (dangerOf low a t) tail = true → ∀ c ∈ t, mCI low c (a ++ tail) = true → c.length ≤ a.length :=
     fun t h => no_longer_match a tail t h
-  have P2 : ∀ t, clashAt a K t 0 = false → ∀ (p : Nat) (c : Text), t[p]? = some c → c.length = a.length →
-      mCI c (a ++ tail) = true → ((0 + p : Nat) : Int) = (K : Int) := by
+  have P2 : ∀ t, clashAt low a K t 0 = false → ∀ (p : Nat) (c : Text), t[p]? = some c → c.length = a.length →
+      mCI low c (a ++ tail) = true → ((0 + p : Nat) : Int) = (K : Int) := by
     intro t h p c hp hl hm
     rw [mCI_same c a tail hl] at hm
     have := clashAt_false a K t 0 h p c hp hl hm
@@ -260,9 +262,9 @@ theorem parseLongest_formatted (t1 : List Text) (t2 : Option (List Text)) (K : N
   | some t =>
     simp only [Option.getD_some] at hc2 hs2
     obtain ⟨b1, b2, b3, b4⟩ := findLongest_inv (a ++ tail) a.length (K : Int) t 0
-      (findLongest (a ++ tail) t1 0 (-1) 0).1 (findLongest (a ++ tail) t1 0 (-1) 0).2 (P1 t hs2) (P2 t hc2) a2 a3
-    have e2 : (findLongest (a ++ tail) t 0 (findLongest (a ++ tail) t1 0 (-1) 0).1
-        (findLongest (a ++ tail) t1 0 (-1) 0).2).2 = a.length := by
+      (findLongest low (a ++ tail) t1 0 (-1) 0).1 (findLongest low (a ++ tail) t1 0 (-1) 0).2 (P1 t hs2) (P2 t hc2) a2 a3
+    have e2 : (findLongest low (a ++ tail) t 0 (findLongest low (a ++ tail) t1 0 (-1) 0).1
+        (findLongest low (a ++ tail) t1 0 (-1) 0).2).2 = a.length := by
       rcases hmem with h | ⟨t', ht, h⟩
       · have := a4 ⟨K, a, h, rfl, hma⟩
         omega
@@ -273,8 +275,8 @@ theorem parseLongest_formatted (t1 : List Text) (t2 : Option (List Text)) (K : N
     rw [e1, e2, drop_a]
     simp
 
-theorem tailSafe_of_forall (ds : List Char) (tail : Text) (h : ∀ x ∈ ds, tailSafe [x] tail = true) :
-    tailSafe ds tail = true := by
+theorem tailSafe_of_forall (ds : List Char) (tail : Text) (h : ∀ x ∈ ds, tailSafe low [x] tail = true) :
+    tailSafe low ds tail = true := by
   cases tail with
   | nil => rfl
   | cons y tl =>
@@ -283,8 +285,8 @@ theorem tailSafe_of_forall (ds : List Char) (tail : Text) (h : ∀ x ∈ ds, tai
     have := h _ hm
     simp [tailSafe] at this
 
-theorem tailSafe_subset (small big : List Char) (tail : Text) (h : ∀ x ∈ small, x ∈ big) (hs : tailSafe big tail = true) :
-    tailSafe small tail = true := by
+theorem tailSafe_subset (small big : List Char) (tail : Text) (h : ∀ x ∈ small, x ∈ big) (hs : tailSafe low big tail = true) :
+    tailSafe low small tail = true := by
   cases tail with
   | nil => rfl
   | cons y tl =>
@@ -309,7 +311,7 @@ theorem pyIndex_nat (table : List Text) (K : Nat) (a : Text) (h : table[K]? = so
 /-- the culture-level condition gives the per-name conditions for every month 1 … 12 -/
 theorem monthNamesOK_at (cu : Culture) (count : Nat) (gen : Bool) (h : monthNamesOK cu count gen = true) (K : Nat)
     (h1 : 1 ≤ K) (h2 : K ≤ 12) :
-    ∃ a, (monthTable cu count gen)[K]? = some a ∧ nameOK (monthTable cu count true) (monthSecond cu count) K a = true := by
+    ∃ a, (monthTable cu count gen)[K]? = some a ∧ nameOK (lowC cu) (monthTable cu count true) (monthSecond cu count) K a = true := by
   unfold monthNamesOK at h
   rw [List.all_eq_true] at h
   have := h (K - 1) (by simp; omega)
@@ -321,7 +323,7 @@ theorem monthNamesOK_at (cu : Culture) (count : Nat) (gen : Bool) (h : monthName
 
 theorem monthDanger_at (cu : Culture) (count : Nat) (gen : Bool) (K : Nat) (h1 : 1 ≤ K) (h2 : K ≤ 12) (a : Text)
     (ha : (monthTable cu count gen)[K]? = some a) :
-    ∀ x ∈ dangerChars (monthTable cu count true) (monthSecond cu count) a, x ∈ monthDanger cu count gen := by
+    ∀ x ∈ dangerChars (lowC cu) (monthTable cu count true) (monthSecond cu count) a, x ∈ monthDanger cu count gen := by
   intro x hx
   unfold monthDanger
   rw [List.mem_flatMap]
@@ -334,8 +336,8 @@ theorem monthDanger_at (cu : Culture) (count : Nat) (gen : Bool) (K : Nat) (h1 :
 /-- the month-name step: what the format action writes for month `K` is read back as `K` -/
 theorem monthText_roundtrip (cu : Culture) (used : Nat) (get : Getter) (b : Bucket) (buf tail : Text) (count K : Nat) (a : Text)
     (hK : get .monthNum = (K : Int)) (ha : (monthTable cu count (genitiveOf used))[K]? = some a)
-    (hok : nameOK (monthTable cu count true) (monthSecond cu count) K a = true)
-    (hs : tailSafe (dangerChars (monthTable cu count true) (monthSecond cu count) a) tail = true) :
+    (hok : nameOK (lowC cu) (monthTable cu count true) (monthSecond cu count) K a = true)
+    (hs : tailSafe (lowC cu) (dangerChars (lowC cu) (monthTable cu count true) (monthSecond cu count) a) tail = true) :
     formatStep cu used get buf (.monthText count) = .ok (buf ++ a) ∧
     parseStep cu (a ++ tail) b (.monthText count) = .ok (some (b.set .monthText (K : Int), tail)) := by
   constructor
@@ -362,7 +364,7 @@ theorem monthText_roundtrip (cu : Culture) (used : Nat) (get : Getter) (b : Buck
 /-! ## day names -/
 
 theorem dayNamesOK_at (cu : Culture) (count : Nat) (h : dayNamesOK cu count = true) (K : Nat) (h1 : 1 ≤ K) (h2 : K ≤ 7) :
-    ∃ a, (dayTable cu count)[K]? = some a ∧ nameOK (dayTable cu count) none K a = true := by
+    ∃ a, (dayTable cu count)[K]? = some a ∧ nameOK (lowC cu) (dayTable cu count) none K a = true := by
   unfold dayNamesOK at h
   rw [List.all_eq_true] at h
   have := h (K - 1) (by simp; omega)
@@ -374,7 +376,7 @@ theorem dayNamesOK_at (cu : Culture) (count : Nat) (h : dayNamesOK cu count = tr
 
 theorem dayDanger_at (cu : Culture) (count : Nat) (K : Nat) (h1 : 1 ≤ K) (h2 : K ≤ 7) (a : Text)
     (ha : (dayTable cu count)[K]? = some a) :
-    ∀ x ∈ dangerChars (dayTable cu count) none a, x ∈ dayDanger cu count := by
+    ∀ x ∈ dangerChars (lowC cu) (dayTable cu count) none a, x ∈ dayDanger cu count := by
   intro x hx
   unfold dayDanger
   rw [List.mem_flatMap]
@@ -387,8 +389,8 @@ theorem dayDanger_at (cu : Culture) (count : Nat) (K : Nat) (h1 : 1 ≤ K) (h2 :
 /-- the day-name step: what the format action writes for weekday `K` is read back as `K` -/
 theorem dayText_roundtrip (cu : Culture) (used : Nat) (get : Getter) (b : Bucket) (buf tail : Text) (count K : Nat) (a : Text)
     (hK : get .dayOfWeek = (K : Int)) (ha : (dayTable cu count)[K]? = some a)
-    (hok : nameOK (dayTable cu count) none K a = true)
-    (hs : tailSafe (dangerChars (dayTable cu count) none a) tail = true) :
+    (hok : nameOK (lowC cu) (dayTable cu count) none K a = true)
+    (hs : tailSafe (lowC cu) (dangerChars (lowC cu) (dayTable cu count) none a) tail = true) :
     formatStep cu used get buf (.dayText count) = .ok (buf ++ a) ∧
     parseStep cu (a ++ tail) b (.dayText count) = .ok (some (b.set .dayOfWeek (K : Int), tail)) := by
   constructor
@@ -398,21 +400,21 @@ theorem dayText_roundtrip (cu : Culture) (used : Nat) (get : Getter) (b : Bucket
 
 /-! ## am/pm designators -/
 
-theorem matchCI_self (s tail : Text) : matchCI s (s ++ tail) = some tail := by
+theorem matchCI_self (s tail : Text) : matchCI low s (s ++ tail) = some tail := by
   unfold matchCI
   have h1 : ¬ (s.length > (s ++ tail).length) := by simp
   rw [if_neg h1]
   simp
 
-theorem matchCI_none_of_not_mCI (c l : Text) (h : mCI c l = false) : matchCI c l = none := by
+theorem matchCI_none_of_not_mCI (c l : Text) (h : mCI low c l = false) : matchCI low c l = none := by
   unfold mCI at h
-  cases hm : matchCI c l with
+  cases hm : matchCI low c l with
   | none => rfl
   | some r => rw [hm] at h; cases h
 
 /-- a non-empty candidate does not match a tail that is safe against its first character -/
-theorem not_mCI_of_tailSafe (c tail : Text) (hc : c ≠ []) (hs : tailSafe ((c.take 1).map asciiLower) tail = true) :
-    mCI c tail = false := by
+theorem not_mCI_of_tailSafe (c tail : Text) (hc : c ≠ []) (hs : tailSafe low ((c.take 1).map low) tail = true) :
+    mCI low c tail = false := by
   cases c with
   | nil => exact absurd rfl hc
   | cons x cs =>
@@ -435,7 +437,7 @@ theorem tdiv12 (hour : Int) (h0 : 0 ≤ hour) (h1 : hour ≤ 23) : Int.tdiv hour
 /-- the am/pm step: the designator written for the hour is read back as that half of the day -/
 theorem amPm_roundtrip (cu : Culture) (used : Nat) (get : Getter) (b : Bucket) (buf tail : Text) (count : Nat)
     (h0 : 0 ≤ get .hours24) (h1 : get .hours24 ≤ 23)
-    (hok : amPmOK cu count = true) (hs : tailSafe (amPmDanger cu count) tail = true) :
+    (hok : amPmOK cu count = true) (hs : tailSafe (lowC cu) (amPmDanger cu count) tail = true) :
     formatStep cu used get buf (.amPm count) = .ok (buf ++ formatAmPm cu count (get .hours24)) ∧
     parseStep cu (formatAmPm cu count (get .hours24) ++ tail) b (.amPm count) =
       .ok (some (b.set .amPm (amPmValue cu (get .hours24)), tail)) := by
@@ -452,7 +454,7 @@ theorem amPm_roundtrip (cu : Culture) (used : Nat) (get : Getter) (b : Bucket) (
     · rw [if_pos hB, if_pos hB]
       dsimp only
       -- one designator: `sd` is the non-empty one
-      have hdanger : amPmDanger cu count = ((if cu.am = [] then cu.pm else cu.am).take 1).map asciiLower := by
+      have hdanger : amPmDanger cu count = ((if cu.am = [] then cu.pm else cu.am).take 1).map (lowC cu) := by
         unfold amPmDanger
         rw [if_neg hA]
         by_cases ha : cu.am = []
@@ -477,7 +479,7 @@ theorem amPm_roundtrip (cu : Culture) (used : Nat) (get : Getter) (b : Bucket) (
               | nil => exact absurd hq hsd
               | cons x xs => simp
             · exact hsd
-          have : ((if count = 1 then cu.pm.take 1 else cu.pm).take 1).map asciiLower = (cu.pm.take 1).map asciiLower := by
+          have : ((if count = 1 then cu.pm.take 1 else cu.pm).take 1).map (lowC cu) = (cu.pm.take 1).map (lowC cu) := by
             split
             · simp [List.take_take]
             · rfl
@@ -497,7 +499,7 @@ theorem amPm_roundtrip (cu : Culture) (used : Nat) (get : Getter) (b : Bucket) (
               | nil => exact absurd hq hsd
               | cons x xs => simp
             · exact hsd
-          have : ((if count = 1 then cu.am.take 1 else cu.am).take 1).map asciiLower = (cu.am.take 1).map asciiLower := by
+          have : ((if count = 1 then cu.am.take 1 else cu.am).take 1).map (lowC cu) = (cu.am.take 1).map (lowC cu) := by
             split
             · simp [List.take_take]
             · rfl
@@ -522,7 +524,7 @@ theorem amPm_roundtrip (cu : Culture) (used : Nat) (get : Getter) (b : Bucket) (
               cases hp : cu.pm with
               | nil => exact absurd hp h2
               | cons y ys => simp
-          have hn : mCI (cu.am.take 1) (cu.pm.take 1 ++ tail) = false := by
+          have hn : mCI (lowC cu) (cu.am.take 1) (cu.pm.take 1 ++ tail) = false := by
             rw [mCI_same _ _ tail hl]; simpa using hok'
           rw [matchCI_none_of_not_mCI _ _ hn, matchCI_self]
         · simp only [hh, if_false, matchCI_self]
@@ -535,8 +537,8 @@ theorem amPm_roundtrip (cu : Culture) (used : Nat) (get : Getter) (b : Bucket) (
           by_cases hh : hour > 11
           · simp only [hh, if_true, matchCI_self]
           · simp only [hh, if_false]
-            have hn : mCI cu.pm (cu.am ++ tail) = false := by
-              cases hm : mCI cu.pm (cu.am ++ tail) with
+            have hn : mCI (lowC cu) cu.pm (cu.am ++ tail) = false := by
+              cases hm : mCI (lowC cu) cu.pm (cu.am ++ tail) with
               | false => rfl
               | true =>
                 obtain ⟨he, _⟩ := mCI_long cu.pm cu.am tail hpl hm
@@ -548,8 +550,8 @@ theorem amPm_roundtrip (cu : Culture) (used : Nat) (get : Getter) (b : Bucket) (
           simp only [hpl, decide_false, Bool.false_eq_true, if_false] at hok' ⊢
           by_cases hh : hour > 11
           · simp only [hh, if_true]
-            have hn : mCI cu.am (cu.pm ++ tail) = false := by
-              cases hm : mCI cu.am (cu.pm ++ tail) with
+            have hn : mCI (lowC cu) cu.am (cu.pm ++ tail) = false := by
+              cases hm : mCI (lowC cu) cu.am (cu.pm ++ tail) with
               | false => rfl
               | true =>
                 by_cases hl : cu.pm.length < cu.am.length
@@ -566,43 +568,43 @@ theorem amPm_roundtrip (cu : Culture) (used : Nat) (get : Getter) (b : Bucket) (
 /-! ## era names -/
 
 /-- the era parse action as one scan over the tagged names (BCE names, then CE names) -/
-def firstTagged (l : Text) : List (Int × Text) → Option (Int × Text)
+def firstTagged (low : Char → Char) (l : Text) : List (Int × Text) → Option (Int × Text)
   | [] => none
   | (e, n) :: ns =>
-    match matchCI n l with
+    match matchCI low n l with
     | some r => some (e, r)
-    | none => firstTagged l ns
+    | none => firstTagged low l ns
 
 theorem firstTagged_map_append (l : Text) (e : Int) (rest : List (Int × Text)) : ∀ names : List Text,
-    firstTagged l (names.map (fun n => (e, n)) ++ rest) =
-      match firstMatchCI l names with
+    firstTagged low l (names.map (fun n => (e, n)) ++ rest) =
+      match firstMatchCI low l names with
       | some r => some (e, r)
-      | none => firstTagged l rest := by
+      | none => firstTagged low l rest := by
   intro names
   induction names with
   | nil => simp [firstMatchCI]
   | cons n ns ih =>
     simp only [List.map_cons, List.cons_append, firstTagged, firstMatchCI]
-    cases matchCI n l with
+    cases matchCI low n l with
     | some r => rfl
     | none => exact ih
 
-theorem parseEra_eq (cu : Culture) (l : Text) : parseEra cu l = firstTagged l (eraCands cu) := by
+theorem parseEra_eq (cu : Culture) (l : Text) : parseEra cu l = firstTagged (lowC cu) l (eraCands cu) := by
   unfold parseEra eraCands
   rw [firstTagged_map_append]
-  cases firstMatchCI l cu.eraNamesBCE with
+  cases firstMatchCI (lowC cu) l cu.eraNamesBCE with
   | some r => rfl
   | none =>
     dsimp only
-    have := firstTagged_map_append l 1 [] cu.eraNamesCE
+    have := firstTagged_map_append (low := lowC cu) l 1 [] cu.eraNamesCE
     rw [List.append_nil] at this
     rw [this]
-    cases firstMatchCI l cu.eraNamesCE with
+    cases firstMatchCI (lowC cu) l cu.eraNamesCE with
     | some r => rfl
     | none => rfl
 
 theorem eraScan_sound (P : Text) (e : Int) (tail : Text) : ∀ (N : List (Int × Text)) (ds : List Char),
-    eraScan P e N = some ds → tailSafe ds tail = true → firstTagged (P ++ tail) N = some (e, tail) := by
+    eraScan low P e N = some ds → tailSafe low ds tail = true → firstTagged low (P ++ tail) N = some (e, tail) := by
   intro N
   induction N with
   | nil => intro ds h; simp [eraScan] at h
@@ -611,14 +613,14 @@ theorem eraScan_sound (P : Text) (e : Int) (tail : Text) : ∀ (N : List (Int ×
     intro ds h hs
     unfold eraScan at h
     unfold firstTagged
-    by_cases h1 : (decide (n.length ≤ P.length) && ciEq (P.take n.length) n) = true
+    by_cases h1 : (decide (n.length ≤ P.length) && ciEq low (P.take n.length) n) = true
     · rw [if_pos h1] at h
       simp only [Bool.and_eq_true, decide_eq_true_eq] at h1
       split at h
       · rename_i h2
-        have hm : mCI n (P ++ tail) = true := by rw [mCI_short n P tail h1.1]; exact h1.2
+        have hm : mCI low n (P ++ tail) = true := by rw [mCI_short n P tail h1.1]; exact h1.2
         unfold mCI at hm
-        cases hq : matchCI n (P ++ tail) with
+        cases hq : matchCI low n (P ++ tail) with
         | none => rw [hq] at hm; cases hm
         | some r =>
           have := matchCI_drop n (P ++ tail) r hq
@@ -627,32 +629,32 @@ theorem eraScan_sound (P : Text) (e : Int) (tail : Text) : ∀ (N : List (Int ×
           rw [this, h2.2]
       · cases h
     · rw [if_neg h1] at h
-      have hno : mCI n (P ++ tail) = true → strictExt n P = true ∧
-          ∃ x tl, tail = x :: tl ∧ asciiLower x = asciiLower (n.getD P.length ' ') := by
+      have hno : mCI low n (P ++ tail) = true → strictExt low n P = true ∧
+          ∃ x tl, tail = x :: tl ∧ low x = low (n.getD P.length ' ') := by
         intro hm
         by_cases hl : n.length ≤ P.length
         · rw [mCI_short n P tail hl] at hm
           exact absurd (by simp [hl, hm]) h1
         · exact mCI_long n P tail (by omega) hm
-      by_cases h2 : strictExt n P = true
+      by_cases h2 : strictExt low n P = true
       · rw [if_pos h2] at h
-        cases hq : eraScan P e ns with
+        cases hq : eraScan low P e ns with
         | none => rw [hq] at h; cases h
         | some ds' =>
           rw [hq] at h
           simp only [Option.map_some, Option.some.injEq] at h
           subst h
-          have hs' : tailSafe ds' tail = true ∧ mCI n (P ++ tail) = false := by
+          have hs' : tailSafe low ds' tail = true ∧ mCI low n (P ++ tail) = false := by
             cases tail with
             | nil =>
               refine ⟨rfl, ?_⟩
-              cases hm : mCI n (P ++ []) with
+              cases hm : mCI low n (P ++ []) with
               | false => rfl
               | true => obtain ⟨_, x, tl, e1, _⟩ := hno hm; cases e1
             | cons y tl =>
               simp only [tailSafe, Bool.not_eq_true', List.contains_eq_mem, decide_eq_false_iff_not, List.mem_cons, not_or] at hs ⊢
               refine ⟨hs.2, ?_⟩
-              cases hm : mCI n (P ++ y :: tl) with
+              cases hm : mCI low n (P ++ y :: tl) with
               | false => rfl
               | true =>
                 obtain ⟨_, x, tl', e1, e2⟩ := hno hm
@@ -662,8 +664,8 @@ theorem eraScan_sound (P : Text) (e : Int) (tail : Text) : ∀ (N : List (Int ×
           rw [matchCI_none_of_not_mCI _ _ hs'.2]
           exact ih ds' hq hs'.1
       · rw [if_neg h2] at h
-        have : mCI n (P ++ tail) = false := by
-          cases hm : mCI n (P ++ tail) with
+        have : mCI low n (P ++ tail) = false := by
+          cases hm : mCI low n (P ++ tail) with
           | false => rfl
           | true => exact absurd (hno hm).1 h2
         rw [matchCI_none_of_not_mCI _ _ this]
@@ -671,7 +673,7 @@ theorem eraScan_sound (P : Text) (e : Int) (tail : Text) : ∀ (N : List (Int ×
 
 /-- the era step: the primary name written for era `e` (0 = BCE, 1 = CE) is read back as `e` -/
 theorem era_roundtrip (cu : Culture) (used : Nat) (get : Getter) (b : Bucket) (buf tail : Text)
-    (he : get .era = 0 ∨ get .era = 1) (hok : eraOK cu = true) (hs : tailSafe (eraDanger cu) tail = true) :
+    (he : get .era = 0 ∨ get .era = 1) (hok : eraOK cu = true) (hs : tailSafe (lowC cu) (eraDanger cu) tail = true) :
     formatStep cu used get buf .era = .ok (buf ++ eraPrimary cu (get .era)) ∧
     parseStep cu (eraPrimary cu (get .era) ++ tail) b .era = .ok (some (b.set .era (get .era), tail)) := by
   refine ⟨by rcases he with e | e <;> simp [formatStep, eraPrimary, eraPrimaryOf, e], ?_⟩
@@ -685,7 +687,7 @@ theorem era_roundtrip (cu : Culture) (used : Nat) (get : Getter) (b : Bucket) (b
   · rw [e0]
     have : eraPrimary cu 0 = cu.eraPrimaryBCE := by simp [eraPrimary]
     rw [this]
-    cases hq : eraScan cu.eraPrimaryBCE 0 (eraCands cu) with
+    cases hq : eraScan (lowC cu) cu.eraPrimaryBCE 0 (eraCands cu) with
     | none => rw [hq] at o1; cases o1
     | some ds =>
       rw [hq] at s1
@@ -693,7 +695,7 @@ theorem era_roundtrip (cu : Culture) (used : Nat) (get : Getter) (b : Bucket) (b
   · rw [e1]
     have : eraPrimary cu 1 = cu.eraPrimaryCE := by simp [eraPrimary]
     rw [this]
-    cases hq : eraScan cu.eraPrimaryCE 1 (eraCands cu) with
+    cases hq : eraScan (lowC cu) cu.eraPrimaryCE 1 (eraCands cu) with
     | none => rw [hq] at o2; cases o2
     | some ds =>
       rw [hq] at s2
@@ -701,7 +703,7 @@ theorem era_roundtrip (cu : Culture) (used : Nat) (get : Getter) (b : Bucket) (b
 
 /-- the era step of a single-era calendar: the primary name of its era is written and read back -/
 theorem eraC_roundtrip (cu : Culture) (used : Nat) (get : Getter) (b : Bucket) (buf tail : Text) (cal : Nat)
-    (he : get .era = eraIdOfCal cal) (hok : eraCOK cu cal = true) (hs : tailSafe (eraCDanger cu cal) tail = true) :
+    (he : get .era = eraIdOfCal cal) (hok : eraCOK cu cal = true) (hs : tailSafe (lowC cu) (eraCDanger cu cal) tail = true) :
     formatStep cu used get buf (.eraC cal) = .ok (buf ++ eraPrimaryOf cu (get .era)) ∧
     parseStep cu (eraPrimaryOf cu (get .era) ++ tail) b (.eraC cal) = .ok (some (b.set .era (get .era), tail)) := by
   refine ⟨rfl, ?_⟩
@@ -709,17 +711,17 @@ theorem eraC_roundtrip (cu : Culture) (used : Nat) (get : Getter) (b : Bucket) (
   simp only [Bool.and_eq_true, decide_eq_true_eq] at hok
   unfold eraCDanger at hs
   rw [he]
-  cases hq : eraScan (eraPrimaryOf cu (eraIdOfCal cal)) (eraIdOfCal cal) (eraCandsC cu cal) with
+  cases hq : eraScan (lowC cu) (eraPrimaryOf cu (eraIdOfCal cal)) (eraIdOfCal cal) (eraCandsC cu cal) with
   | none => rw [hq] at hok; cases hok.1
   | some ds =>
     rw [hq] at hs
     have h1 := eraScan_sound _ (eraIdOfCal cal) tail _ ds hq hs
     unfold eraCandsC at h1
-    have h2 := firstTagged_map_append (eraPrimaryOf cu (eraIdOfCal cal) ++ tail) (eraIdOfCal cal) [] (eraNamesOf cu (eraIdOfCal cal))
+    have h2 := firstTagged_map_append (low := lowC cu) (eraPrimaryOf cu (eraIdOfCal cal) ++ tail) (eraIdOfCal cal) [] (eraNamesOf cu (eraIdOfCal cal))
     rw [List.append_nil] at h2
     rw [h2] at h1
     simp only [parseStep]
-    cases hm : firstMatchCI (eraPrimaryOf cu (eraIdOfCal cal) ++ tail) (eraNamesOf cu (eraIdOfCal cal)) with
+    cases hm : firstMatchCI (lowC cu) (eraPrimaryOf cu (eraIdOfCal cal) ++ tail) (eraNamesOf cu (eraIdOfCal cal)) with
     | none => rw [hm] at h1; simp [firstTagged] at h1
     | some r =>
       rw [hm] at h1
